@@ -59,7 +59,7 @@ class _File:
         self.features = {}          # file-level features (editions)
         self.lines = []
         self.msgs = []              # exported message full names [(fqn, extendable, file_syntax)]
-        self.enums = []             # [(fqn, closed_as_linker_sees, first_value_name)]
+        self.enums = []             # [(fqn, closed_as_linker_sees, first_value_name, first_value_number)]
         self.uses_descriptor = False
         self.custom_opts = []       # [(kind, name, type)] options declared here
         self.shadow = False         # the file declares a message named like the first component of its package
@@ -106,8 +106,8 @@ class _Gen:
         return self.f.features.get(name, DEFAULTS_2023[name])
 
     def linker_closed(self, enum_feature_value):
-        # enumDescriptor.IsClosed: resolved == CLOSED
-        return enum_feature_value == "CLOSED"
+        # enumDescriptor.IsClosed: everything that is not OPEN
+        return enum_feature_value != "OPEN"
 
     # ---- rendering helpers
     def feat_opts(self, feats):
@@ -163,7 +163,7 @@ class _Gen:
             else:
                 self.emit(ind + 1, 'reserved "%s_OLD";' % name.upper())
         self.emit(ind, "}")
-        ent = (fqn, closed, vnames[0])
+        ent = (fqn, closed, vnames[0], nums[0])
         self.f.enums.append(ent)
         return ent
 
@@ -192,7 +192,7 @@ class _Gen:
             es = self.all_enums()
             if es:
                 g, e = rng.choice(es)
-                return ("enum", e[0], e[1], e[2], g.syntax)
+                return ("enum", e[0], e[1], e[2], g.syntax, e[3])
             return ("scalar", rng.choice(SCALARS))
         if allow_msg:
             ms = self.all_msgs()
@@ -260,6 +260,9 @@ class _Gen:
             k = rng.choice(MAPKEYS)
             vt = self.pick_type(allow_map=False)
             ok = True
+            if vt[0] == "enum" and vt[5] != 0 and not rng.chance(1, 12):
+                # an enum used as a map value must start at zero (rejected otherwise); keep a few as probes
+                vt = ("scalar", "int32")
             if vt[0] == "enum":
                 # the synthesized value field is singular: implicit presence needs an open enum
                 if syn == "proto3" and vt[2]:
@@ -538,6 +541,8 @@ CORPUS_C04 = [
     'syntax = "proto3";\nimport "google/protobuf/descriptor.proto";\nextend google.protobuf.FieldOptions { optional int32 fo = 50001; }\nmessage M {\n  optional int32 a = 1;\n  repeated int32 b = 2 [packed = false];\n  repeated int32 c = 3;\n  int32 d = 4 [(fo) = 3];\n  oneof o { int32 e = 5; }\n  map<int32, M> f = 6;\n  E g = 7;\n  repeated E h = 8;\n}\nenum E { Z = 0; }\n',
     # proto2 groups, required, packed, defaults, extensions in a message scope
     'syntax = "proto2";\nmessage M {\n  required int32 a = 1;\n  optional group G = 2 { optional int32 x = 1; }\n  repeated group H = 3 { required M m = 1; }\n  repeated int32 p = 4 [packed = true];\n  repeated string q = 5;\n  optional bytes d = 6 [default = "\\x00\\xff"];\n  optional E e = 7 [default = B];\n  oneof o { int32 oi = 8; group OG = 9 { optional int32 y = 1; } }\n  extensions 100 to 200;\n  extend M { optional int32 ext1 = 100; repeated sint64 ext2 = 101 [packed = true]; optional M ext3 = 102; }\n}\nenum E { A = 1; B = 2; }\nextend M { repeated E ext4 = 103; }\n',
+    # an enum that does not start at zero as a map value: must be rejected (protoc and the Go runtime reject it)
+    'syntax = "proto2";\nenum E { A = 1; }\nmessage M { map<int32, E> m = 1; }\n',
     # overrides at every legal level, four levels deep
     'edition = "2023";\noption features.field_presence = IMPLICIT;\noption features.repeated_field_encoding = EXPANDED;\noption features.enum_type = CLOSED;\noption features.json_format = LEGACY_BEST_EFFORT;\nmessage A {\n  option features.json_format = ALLOW;\n  message B {\n    message C {\n      option features.json_format = LEGACY_BEST_EFFORT;\n      message D {\n        int32 x = 1;\n        int32 y = 2 [features.field_presence = EXPLICIT];\n        repeated int32 z = 3;\n        repeated int32 w = 4 [features.repeated_field_encoding = PACKED];\n        enum E { option features.enum_type = OPEN; Z = 0; }\n        enum F { F1 = 1; }\n        E e = 5;\n        F f = 6 [features.field_presence = LEGACY_REQUIRED];\n        D d = 7 [features.message_encoding = DELIMITED];\n        string s = 8 [features.utf8_validation = NONE];\n      }\n    }\n  }\n}\n',
 ]
